@@ -1,7 +1,7 @@
 (* C02  Only authentic packets are accepted; altered packets change nothing.
    Statements only; proofs are in proofs/PacketNumberProofs.v and proofs/ProtectProofs.v. *)
 From AQ Require Import lib.Base model.PacketNumber model.Protect gen.PnGen proofs.PacketNumberProofs proofs.ProtectProofs
-  model.KeyPhase proofs.KeyPhaseProofs.
+  model.KeyPhase proofs.KeyPhaseProofs gen.C02Keys model.KeyDerive proofs.KeyDeriveProofs model.KeyPhaseSec proofs.KeyPhaseSecProofs model.PacketRecv proofs.PacketRecvProofs.
 
 (* the current source of decode_packet_number (translated by tools/gen/c02_pure.py) is the model *)
 Theorem gen_source_is_model : forall t b e, gen_decode_packet_number t b e = decode_packet_number t b e.
@@ -148,3 +148,163 @@ Theorem fresh_packet_accepted : forall s x, reachable s ->
     gen (ep s2 (negb x)) = gen (ep s2 x).
 Proof. exact fresh_packet_accepted_lemma. Qed.
 Print Assumptions fresh_packet_accepted.
+
+(* ---- key derivation (model/KeyDerive.v; constants generated from the current source by tools/gen/c02_keys.py) ---- *)
+
+(* every label, salt, length, code point and Retry key the current source contains is the one RFC 8446 / 9001 / 9369 give
+   (the RFC values are written out in proofs/KeyDeriveProofs.v constants_rfc; the proof is reflexivity) *)
+Theorem constants_are_rfc : constants_rfc.
+Proof. exact constants_are_rfc_lemma. Qed.
+Print Assumptions constants_are_rfc.
+
+(* (label, context, length) |-> HkdfLabel bytes is injective wherever hkdf_label does not raise ... *)
+Theorem hkdf_label_injective : forall l1 c1 n1 l2 c2 n2 info,
+  hkdf_label l1 c1 n1 = Some info -> hkdf_label l2 c2 n2 = Some info -> l1 = l2 /\ c1 = c2 /\ n1 = n2.
+Proof. exact hkdf_label_injective_lemma. Qed.
+Print Assumptions hkdf_label_injective.
+
+(* ... and it does not raise for labels shorter than 250 bytes, contexts up to 255 bytes and uint16 lengths *)
+Theorem hkdf_label_domain : forall l c n, Zlen l < 250 -> Zlen c <= 255 -> 0 <= n <= 65535 -> exists info, hkdf_label l c n = Some info.
+Proof. exact hkdf_label_defined. Qed.
+Print Assumptions hkdf_label_domain.
+
+(* every derivation of crypto.py asks for at most one digest: OKM = first n bytes of HMAC(secret, HkdfLabel | 0x01) *)
+Theorem expand_label_one_block : forall (hmac : Z -> list Z -> list Z -> list Z) a secret label ctx n o, 0 < n <= snd a ->
+  hkdf_expand_label hmac a secret label ctx n = Ok o ->
+  exists info, hkdf_label label ctx n = Some info /\ o = ztake n (hmac (fst a) secret (info ++ [1])).
+Proof. exact expand_label_single. Qed.
+Print Assumptions expand_label_one_block.
+
+(* derive_key_iv_hp is the three derivations PKey, PIv, PHp; the next secret is PKu *)
+Theorem derive_key_iv_hp_is_three_derivations : forall (hmac : Z -> list Z -> list Z -> list Z) cs secret version,
+  derive_key_iv_hp hmac cs secret version =
+    (k <- derive hmac cs version secret PKey ;; i <- derive hmac cs version secret PIv ;; h <- derive hmac cs version secret PHp ;; Ok (k, i, h))
+  /\ next_secret hmac cs secret version = derive hmac cs version secret PKu.
+Proof. exact (fun hmac cs secret version => conj (derive_key_iv_hp_components hmac cs secret version) (next_secret_is_derive hmac cs secret version)). Qed.
+Print Assumptions derive_key_iv_hp_is_three_derivations.
+
+(* H-HMAC (hmac_ideal, hmac_len: explicit premises): key, iv, hp and next secret, of version 1 and of version 2, are
+   pairwise separated -- two derivations yield the same bytes only if they are the same derivation from the same secret *)
+Theorem derived_secrets_separated : forall (hmac : Z -> list Z -> list Z -> list Z), hmac_ideal hmac -> hmac_len hmac ->
+  forall cs1 v1 s1 p1 cs2 v2 s2 p2 o, Zlen s1 = Zlen s2 ->
+  derive hmac cs1 v1 s1 p1 = Ok o -> derive hmac cs2 v2 s2 p2 = Ok o ->
+  s1 = s2 /\ p1 = p2 /\ is_v2 v1 = is_v2 v2 /\ cipher_suite_hash cs1 = cipher_suite_hash cs2.
+Proof. exact derived_secrets_separated_lemma. Qed.
+Print Assumptions derived_secrets_separated.
+
+(* the Initial keys depend on the Destination Connection ID, the version family and the role: whatever two setup_initial
+   calls share (send secret, AEAD key, iv or hp key) they agree on all three; a send key equals a receive key only for the
+   same DCID and version family and OPPOSITE roles *)
+Theorem initial_keys_depend_on_dcid_and_version : forall (hmac : Z -> list Z -> list Z -> list Z), hmac_ideal hmac -> hmac_len hmac ->
+  forall cid1 c1 v1 r1 s1 cid2 c2 v2 r2 s2 p,
+  setup_initial hmac cid1 c1 v1 = Ok (r1, s1) -> setup_initial hmac cid2 c2 v2 = Ok (r2, s2) ->
+  (mat_of s1 p = mat_of s2 p -> cid1 = cid2 /\ is_v2 v1 = is_v2 v2 /\ c1 = c2) /\
+  (mat_of s1 p = mat_of r2 p -> cid1 = cid2 /\ is_v2 v1 = is_v2 v2 /\ c1 = negb c2).
+Proof. exact initial_keys_depend_lemma. Qed.
+Print Assumptions initial_keys_depend_on_dcid_and_version.
+
+(* n key updates: the secret is secret_at n -- generation n+1 is computed from generation n, the suite and the version
+   only --, key and iv are derived from it, the header protection key is still the first one *)
+Theorem key_update_chain : forall (hmac : Z -> list Z -> list Z -> list Z) n m m', updates hmac n m = Ok m' ->
+  secret_at hmac (m_cs m) (m_version m) (m_secret m) n = Ok (m_secret m') /\
+  m_cs m' = m_cs m /\ m_version m' = m_version m /\ m_hp m' = m_hp m /\
+  (n <> O -> derive hmac (m_cs m) (m_version m) (m_secret m') PKey = Ok (m_key m') /\
+             derive hmac (m_cs m) (m_version m) (m_secret m') PIv = Ok (m_iv m')).
+Proof. exact updates_chain. Qed.
+Print Assumptions key_update_chain.
+
+(* H-HMAC + "the chain does not return to its first secret": no two generations share a secret *)
+Theorem key_generations_have_distinct_secrets : forall (hmac : Z -> list Z -> list Z -> list Z), hmac_ideal hmac -> hmac_len hmac ->
+  forall cs a v s0, cipher_suite_hash cs = Some a -> Zlen s0 = snd a ->
+  (forall n, n <> O -> secret_at hmac cs v s0 n <> Ok s0) ->
+  forall i j s, secret_at hmac cs v s0 i = Ok s -> secret_at hmac cs v s0 j = Ok s -> i = j.
+Proof. exact key_chain_no_repeat. Qed.
+Print Assumptions key_generations_have_distinct_secrets.
+
+(* the Retry integrity key and nonce are selected by version and differ between the two families *)
+Theorem retry_keys_selected_by_version : forall v1 v2, (v1 =? QUIC_VERSION_2) <> (v2 =? QUIC_VERSION_2) ->
+  fst (retry_key_nonce v1) <> fst (retry_key_nonce v2) /\ snd (retry_key_nonce v1) <> snd (retry_key_nonce v2).
+Proof. exact retry_keys_differ. Qed.
+Print Assumptions retry_keys_selected_by_version.
+
+(* ---- the key-phase machine with KEY MATERIAL (model/KeyPhaseSec.v): contexts carry secrets, packets the (key, iv) they were
+   sealed under.  chain_premises = a known cipher suite, first secrets of digest length, H-HMAC, and neither "ku" chain
+   returns to its first secret (proofs/KeyPhaseSecProofs.v). ---- *)
+
+(* a packet sealed under generation g of a direction opens under the keys of generation g' of that direction iff g = g' *)
+Theorem sealed_generation_opens_only_itself : forall hmac cs version s0 a, chain_premises hmac cs version s0 a ->
+  forall d g g', 0 <= g -> 0 <= g' ->
+  opens_under hmac cs version (cpkt hmac cs version s0 d (mkQ (Some g) (g mod 2) false)) (sec hmac cs version s0 d g') = (g =? g').
+Proof. exact sealed_generation_opens_only_itself_closed. Qed.
+Print Assumptions sealed_generation_opens_only_itself.
+
+(* the machine with key material, started from the two first secrets, run on any events described (revents) by allowed abstract
+   events, IS the counter machine: same verdicts, state = concretisation (generation g |-> g-th secret of the chain) *)
+Theorem secrets_refine_generations : forall hmac cs version s0 a, chain_premises hmac cs version s0 a ->
+  forall ses kes, allowed_run sys_init kes -> revents hmac cs version s0 ses kes ->
+  srun hmac cs version (ssys_init s0) ses = (csys hmac cs version s0 (fst (run sys_init kes)), snd (run sys_init kes)).
+Proof. exact secrets_refine_generations_closed. Qed.
+Print Assumptions secrets_refine_generations.
+
+(* an injected packet whose (key, iv) belongs to no generation of the direction it travels in -- other direction, other
+   connection, garbage, not a sealing at all -- is described by the forged abstract packet (q_auth = None) *)
+Theorem foreign_packet_is_forged : forall hmac cs version s0 d sp,
+  (forall g, 0 <= g -> sq_keys sp <> keys_of hmac cs version (sec hmac cs version s0 d g)) ->
+  rpkt hmac cs version s0 d sp (mkQ None (sq_phase sp) (sq_long sp)).
+Proof. exact foreign_packet_is_forged_closed. Qed.
+Print Assumptions foreign_packet_is_forged.
+
+(* genuine_packet_verdict with secrets instead of counters: a packet the peer has ever sent, sealed under the (key, iv) of the g-th
+   secret of its direction, is rejected by the receiver ONLY if the receiver's secret is already beyond the g-th; otherwise it is
+   accepted and the receiver's receive secret is then exactly the g-th secret *)
+Theorem genuine_packet_verdict_secrets : forall hmac cs version s0 a, chain_premises hmac cs version s0 a ->
+  forall s x k p, reachable s -> nth_error (hist s x) (Z.to_nat k) = Some p ->
+  exists g, 0 <= g /\
+    nth_error (shist (csys hmac cs version s0 s) x) (Z.to_nat k)
+      = Some (mkSQ (keys_of hmac cs version (sec hmac cs version s0 x g)) (q_phase p) (q_long p)) /\
+    let y := sep (csys hmac cs version s0 s) (negb x) in
+    sc_secret (sp_recv y) = sec hmac cs version s0 x (gen (ep s (negb x))) /\
+    ((g < gen (ep s (negb x)) /\ spair_decrypt hmac cs version y (cpkt hmac cs version s0 x p) = (y, Rejected)) \/
+     (gen (ep s (negb x)) <= g /\ exists y' upd, spair_decrypt hmac cs version y (cpkt hmac cs version s0 x p) = (y', Accepted upd) /\
+        sc_secret (sp_recv y') = sec hmac cs version s0 x g /\ upd = negb (g =? gen (ep s (negb x))))).
+Proof. exact genuine_packet_verdict_secrets_closed. Qed.
+Print Assumptions genuine_packet_verdict_secrets.
+
+(* ---- receive_datagram's decisions around decryption (model/PacketRecv.v; model only, see docs/C02.md) ---- *)
+
+(* a packet that is not an unmodified sealing (altered in any bit, forged, sealed under other keys), of any type, with either
+   key phase bit, any claimed packet number and content, for whose epoch the receiver has keys, leaves EVERY modelled field of the
+   connection unchanged: key-phase state, packet spaces (expected / largest packet number, ack queue, ack timer), connection
+   and close state, idle timer, delivered payloads, retransmission flag *)
+Theorem unauthentic_packet_no_effect_conn : forall frames idle_timeout ack_delay c r now,
+  has_keys c (r_epoch r) = true -> q_auth (r_q r) = None -> recv_packet frames idle_timeout ack_delay c r now = c.
+Proof. exact unauthentic_packet_no_effect_conn_lemma. Qed.
+Print Assumptions unauthentic_packet_no_effect_conn.
+
+(* no later effect: from any sequence of received packets the unauthentic ones can be deleted without changing the final state *)
+Theorem unauthentic_packets_no_later_effect_conn : forall frames idle_timeout ack_delay rs c,
+  recv_all frames idle_timeout ack_delay c rs =
+  recv_all frames idle_timeout ack_delay c
+    (filter (fun rn => negb (has_keys c (r_epoch (fst rn)) && match q_auth (r_q (fst rn)) with None => true | Some _ => false end)) rs).
+Proof. exact unauthentic_packets_no_later_effect_lemma. Qed.
+Print Assumptions unauthentic_packets_no_later_effect_conn.
+
+(* no keys for the epoch: dropped; the only possible change is the client's one-shot Initial retransmission (RFC 9002 6.2.3) *)
+Theorem key_unavailable_packet_effect : forall frames idle_timeout ack_delay c r now, has_keys c (r_epoch r) = false ->
+  recv_packet frames idle_timeout ack_delay c r now = c \/
+  (c_is_client c = true /\ c_crypto_retransmitted c = false /\ (r_epoch r = EHandshake \/ r_epoch r = EOneRtt) /\
+   recv_packet frames idle_timeout ack_delay c r now =
+     mkC (c_is_client c) (c_keys_initial c) (c_keys_handshake c) (c_keys_onertt c) (c_pair c) (c_sp_initial c) (c_sp_handshake c)
+       (c_sp_onertt c) true (c_rescheduled c + 1) (c_connected c) (c_close c) (c_close_at c) (c_delivered c)).
+Proof. exact key_unavailable_effect. Qed.
+Print Assumptions key_unavailable_packet_effect.
+
+(* the reserved bits are examined only after the packet has authenticated: PROTOCOL_VIOLATION, nothing delivered, no packet number
+   recorded, idle timer untouched -- a remote key update has already been applied *)
+Theorem reserved_bits_checked_after_decrypt_conn : forall frames idle_timeout ack_delay c r now p',
+  decrypt c r = Opened p' -> Z.land (r_first r) (if epoch_eqb (r_epoch r) EOneRtt then 24 else 12) <> 0 ->
+  let c' := recv_packet frames idle_timeout ack_delay c r now in
+  c_close c' = Some PROTOCOL_VIOLATION /\ c_delivered c' = c_delivered c /\ c_pair c' = p' /\
+  c_sp_initial c' = c_sp_initial c /\ c_sp_handshake c' = c_sp_handshake c /\ c_sp_onertt c' = c_sp_onertt c /\ c_close_at c' = c_close_at c.
+Proof. exact reserved_bits_checked_after_decrypt. Qed.
+Print Assumptions reserved_bits_checked_after_decrypt_conn.
